@@ -662,3 +662,35 @@ Proof.
     as (s & rest & Hf & _ & Hw & _ & pt & x0 & Hpd & Hx & Hau).
   exists s, rest, pt, x0. repeat split; assumption.
 Qed.
+
+(** group messages: what a group session seals is authenticated by a receiver
+    whose first candidate key for that group is the same operational key, with
+    the identical header fields and payload (delivery then only depends on the
+    group counter store and on room in the session table) *)
+Theorem group_encode_auth W s stB from c others p x payload wire :
+  world_functional W ->
+  plain_wf p = true -> proto_wf x = true ->
+  mode_enc (ps_mode s) = true ->
+  session_encode W s p x payload = Ok wire ->
+  find_sess (st_sessions stB) from p = None ->
+  plain_group p = true -> plain_get_src p = Some (ps_local_node s) ->
+  is_none (plain_get_dst_groupcast p) && is_none (plain_get_dst_unicast p) = false ->
+  (length wire - length (plain_encode p) <= 1280)%nat ->
+  group_cands stB p = c :: others -> gc_key c = ps_enc_key s ->
+  auth_check W stB from wire = AuthGroup c p (adjust_rel (addr_reliable from) x) payload.
+Proof.
+  intros Hfun Hp Hx Hms He Hf Hg Hsrc Hdst Hlen Hc Hk.
+  unfold session_encode, sess_enc_key in He. rewrite Hms in He.
+  destruct (aead_seal W (sealed_term s p x payload)) as [ct|] eqn:Hs; [|discriminate].
+  assert (Hw : plain_encode p ++ ct = wire) by congruence. subst wire. clear He.
+  apply aead_seal_sound in Hs. unfold sealed_term in Hs.
+  unfold auth_check. rewrite plain_roundtrip by exact Hp.
+  rewrite consumed_app, Hf.
+  assert (Henc : plain_encrypted p = true) by (unfold plain_encrypted; rewrite Hg; apply orb_true_r).
+  rewrite Henc, Hg, Hsrc, Hdst. cbn [negb].
+  rewrite app_length in Hlen.
+  replace (1280 <? length ct)%nat with false by (symmetry; apply Nat.ltb_ge; lia).
+  rewrite Hc. cbn [group_try]. unfold decode_remaining. rewrite Hk.
+  rewrite (aead_open_complete W _ _ _ _ _ Hfun Hs).
+  rewrite proto_roundtrip by exact Hx. reflexivity.
+Qed.
